@@ -118,9 +118,7 @@ func c18Run(c *vfCtx, cs c18Case) {
 	if vfHasLine(cs.Text, "[TestA - 2]") || vfHasLine(cs.Text, "[TestA - 1]") {
 		class = "K2-header-line-in-body"
 	}
-	if vfHasLine(cs.Text, "/-/-/-/") {
-		class = "K1-escape-not-injective"
-	}
+	k1 := vfHasLine(cs.Text, "/-/-/-/")
 	if got != "added" {
 		c.violation(class, fmt.Sprintf("recording %q signalled %s %v", vfClip(cs.Text), got, t.errs), cs)
 		return
@@ -141,8 +139,15 @@ func c18Run(c *vfCtx, cs c18Case) {
 		return
 	}
 	if stored := vfUnescapeModel(es[0].Body); stored != cs.Text {
+		if k1 && class == "" {
+			// K1 only explains THIS check: the stored text cannot be mapped back; replaying must still work
+			class = "K1-escape-not-injective"
+		}
 		c.violation(class, fmt.Sprintf("stored document %q differs from the input %q", vfClip(stored), vfClip(cs.Text)), cs)
-		return
+		if class != "K1-escape-not-injective" {
+			return
+		}
+		class = ""
 	}
 	// replay
 	vfResetState(false, "", true)
